@@ -25,10 +25,14 @@ Ev == TraceLog[l]
 Consume(e) == l <= Len(TraceLog) /\ Ev.ev = e /\ l' = l + 1
 
 Answered(e) == e.out \in {"ok", "err"}
-RpcGood(e) ==
+\* the gRPC client of the driver ended an open-ended stream itself (deadline): the process is alive, no
+\* answer was observed (the same request was answered under recover just before, and judged there)
+Cut(e) == e.via = "grpc" /\ e.out = "cut"
+RpcAnswerGood(e) ==
   /\ Answered(e)
   /\ (e.k # "odd" /\ MustErr(e.rpc, [k |-> e.k, p |-> e.p, s |-> e.s],
                              [acct |-> e.pre.acct, gm |-> e.pre.gm, gc |-> e.pre.gc])) => e.out = "err"
+RpcGood(e) == Cut(e) \/ RpcAnswerGood(e)
 HelperGood(e) == Answered(e) /\ (HelperMustErr(e.fn, e.c) => e.out = "err")
 Good(e) == CASE e.ev = "reset" -> TRUE
              [] e.ev = "rpc" -> RpcGood(e)
